@@ -651,6 +651,123 @@ def r5(k: Kit) -> None:
                   'already pending or sent', str(bad), fi.loc(fi.node))
 
 
+def r6(k: Kit) -> None:
+    """A peer that silently disappears is detected by the keepalive count."""
+    rep = k.rep
+    idx = k.idx
+    rep.rule('C09.R6', 'keepalive: the timer callback increments '
+             '_keepalive_count before comparing it with the maximum, calls '
+             'connection_lost when it is exceeded and otherwise re-arms the '
+             'timer and starts a request; no code that runs synchronously '
+             'from the callback stores to the counter, and a coroutine clears '
+             'it only past an await (the reply) - a silent peer is declared '
+             'dead after count_max intervals and every waiter is released')
+    conn = idx.cls('connection.SSHConnection')
+    cb = k.func(CONN + '_keepalive_timer_callback')
+    g = k.cfg(cb)
+    incs = [n for n in g.nodes if isinstance(n.ast, ast.AugAssign) and
+            dotted(n.ast.target) == 'self._keepalive_count' and
+            isinstance(n.ast.op, ast.Add)]
+    cmps = [n for n in g.nodes if n.kind == 'atom' and
+            isinstance(n.ast, ast.Compare) and
+            'self._keepalive_count' in norm(n.ast) and
+            'self._keepalive_count_max' in norm(n.ast)]
+    rep.floor('C09.R6', 'keepalive count compare', len(cmps), 1)
+    for c in cmps:
+        w = g.must_pass([n.id for n in incs], dst=c.id)
+        rep.check(w is None and bool(incs), 'C09.R6',
+                  key(cb, 'count incremented before compare'),
+                  'every path to the compare passes the increment',
+                  'the unanswered-keepalive counter is not incremented on a '
+                  'path to its comparison: the limit is never reached',
+                  k.loc(cb, c), g.describe_path(w) if w else None)
+        exceeded = isinstance(c.ast.ops[0], (ast.Gt, ast.GtE)) and \
+            dotted(c.ast.left) == 'self._keepalive_count'
+        rep.check(exceeded, 'C09.R6', key(cb, 'compare orientation'),
+                  'count > max', 'unexpected compare ' + norm(c.ast),
+                  k.loc(cb, c))
+        for label, tails, why in (
+                (True, ['connection_lost'], 'limit exceeded but '
+                 'connection_lost is not called: nothing ever fails the '
+                 'pending operations of a silently lost connection'),
+                (False, ['_set_keepalive_timer'], 'timer not re-armed '
+                 'below the limit: probing stops after one interval'),
+                (False, ['create_task'], 'no keepalive request started')):
+            succ = [b for b, l in g.succ[c.id] if l is label]
+            hits = [n.id for n in g.nodes for cc in g.calls_at(n)
+                    if any(is_call(cc, t, 'self') for t in tails)]
+            bad = None
+            for sx in succ:
+                if sx in hits:
+                    continue
+                bad = g.path(sx, g.exit, blocked_nodes=hits,
+                             follow_exc=False)
+                if sx == g.exit:
+                    bad = [sx]
+                if bad:
+                    break
+            rep.check(bool(succ) and bad is None, 'C09.R6',
+                      key(cb, f'{"over" if label else "under"} limit: '
+                          f'{tails[0]}'),
+                      f'every {label} path calls {tails[0]}', why,
+                      k.loc(cb, c), g.describe_path(bad) if bad else None)
+    # who stores to the counter
+    closure: Set[str] = set()
+    work = [cb]
+    while work:
+        fi = work.pop()
+        if fi.qual in closure:
+            continue
+        closure.add(fi.qual)
+        for c in ast.walk(fi.node):
+            if isinstance(c, ast.Call) and isinstance(c.func, ast.Attribute) \
+                    and dotted(c.func.value) == 'self':
+                for cl in [conn] + idx.all_subclasses(conn):
+                    m = cl.methods.get(c.func.attr)
+                    if m is not None and not m.is_async and \
+                            m.name != 'connection_lost':
+                        work.append(m)
+    n_st = 0
+    for fi in idx.iter_funcs(['connection']):
+        for n, v in k.stores_to(fi, 'self._keepalive_count'):
+            if isinstance(n.ast, ast.AugAssign):
+                ok = fi.qual == cb.qual
+                rep.check(ok, 'C09.R6', key(fi, 'counter increment'),
+                          'only the timer callback counts',
+                          'counter incremented outside the timer callback',
+                          k.loc(fi, n))
+                continue
+            n_st += 1
+            if fi.name == '__init__':
+                continue
+            g2 = k.cfg(fi)
+            if fi.is_async:
+                aw = [m.id for m in g2.nodes if m.ast is not None and any(
+                    isinstance(x, ast.Await)
+                    for r in g2.node_roots(m) for x in walk_shallow(r))
+                    and m.id != n.id]
+                w = g2.must_pass(aw, dst=n.id)
+                rep.check(w is None, 'C09.R6',
+                          key(fi, 'counter cleared after the reply'),
+                          'the store is dominated by an await',
+                          'the unanswered-keepalive counter is cleared '
+                          'before anything was awaited: it is reset without '
+                          'a reply from the peer', k.loc(fi, n),
+                          g2.describe_path(w) if w else None)
+            else:
+                rep.check(fi.qual not in closure, 'C09.R6',
+                          key(fi, 'counter not cleared by the timer path'),
+                          'not in the synchronous call closure of the timer '
+                          'callback',
+                          f'{fi.qual} runs synchronously from the keepalive '
+                          'timer callback and clears the unanswered-'
+                          'keepalive counter: the limit is never reached and '
+                          'a silently lost connection is never declared '
+                          'dead - every pending operation waits forever',
+                          k.loc(fi, n))
+    rep.floor('C09.R6', 'keepalive counter stores', n_st, 2)
+
+
 def run(idx, rep, tier):
     k = Kit(idx, rep)
     rep.assumptions += NOT_DECIDED
@@ -659,3 +776,4 @@ def run(idx, rep, tier):
     r3(k)
     r4(k)
     r5(k)
+    r6(k)
